@@ -172,7 +172,7 @@ prop("C12", "c12",
      "WWW-Authenticate naming the realm; (3) the three entry points agree on status and Location; (4) body empty unless "
      "verbose, otherwise its content type is one of the supported types the Accept header admits with maximal quality and the "
      "body parses as that type. Non-trivial: depth >= 2, a foreign error, or a status override; distinct by (error, overrides, Accept).",
-     [dict(run="^TestInjectedErrorsMapToTheirClass$", quick=2500, thorough=36000, shards_thorough=10),
+     [dict(run="^TestInjectedErrorsMapToTheirClass$", quick=2500, thorough=120000, shards_thorough=10),
       dict(run="^TestRedirectAndChallengeHandlers$", quick=1500, thorough=18000, shards_thorough=6)],
      ["values mixing several heimdall kinds: only (1), (3), (4) are asserted", "an Accept header admitting no supported type is don't-care",
       "generated Accept headers avoid overlapping ranges with conflicting weights (library-specific tie breaking)"],
@@ -228,7 +228,7 @@ prop("C15", "c15",
      "header exactly the pipeline's value arrives; other client headers pass; X-Forwarded-Method/-Uri/-Path never arrive; "
      "X-Forwarded-For or Forwarded ends with the peer address. Non-trivial: encoding present, rewrite configured or a "
      "colliding header; distinct by scenario.",
-     [dict(run="^TestForwardedRequestIsTheRewrittenRequest$", quick=1000, thorough=80000, shards_thorough=10)],
+     [dict(run="^TestForwardedRequestIsTheRewrittenRequest$", quick=4000, thorough=80000, shards_thorough=10)],
      ["raw non-ASCII bytes in the request line are not generated (invalid per RFC 3986)", "a rewrite leaving a relative path is don't-care",
       "the upstream speaks plain http: for TLS client connections the rewrite sets scheme http"],
      level="Randomised generated search against the record of an echo upstream behind the assembled proxy service; bounded exploration.",
